@@ -247,7 +247,10 @@ static void run(char, Choice &c, Ctx &cx)
     CaseOut co; std::memset((void *)&co, 0, sizeof co);
     Pristine::Rep rep;
     // (1)-(3) the case itself, in a process whose only history is this case
-    if (own_process && pr.ask('C', 0, 0, c.d, std::min(c.n, c.consumed()), cx.known, rep, &co)) {
+    // the helper process decodes the bytes again without a tail: hand it the stream as it was read (tail bytes materialised)
+    std::vector<uint8_t> mat(c.tail ? c.pos : std::min(c.n, c.consumed()));
+    for (size_t i = 0; i < mat.size(); ++i) mat[i] = i < c.n ? c.d[i] : c.tail_byte(i);
+    if (own_process && pr.ask('C', 0, 0, mat.data(), mat.size(), cx.known, rep, &co)) {
         if (rep.status != 0) VF_FAIL(cx, rep.status == 2 ? "hang" : "crash", "the case %s in its own process (%s %d); a sanitizer report, if any, is in the log", rep.status == 2 ? "did not finish within 100 s" : "died", rep.sig > 0 ? "signal" : "exit code", rep.sig > 0 ? rep.sig : -rep.sig);
         cx.label("case-in-own-process");
     } else { run_case_local(jobs, cx.known, co); cx.label("case-in-this-process"); }
